@@ -130,6 +130,26 @@ def run(ctx):
                                    summary=f"cache: event trace not accepted by the wrapper automaton: {r}")
             break
 
+    # exit status = the child's exit status, also when cache itself was started with an unrelated, already terminated child (a
+    # shell's process substitution or an earlier background job survives execve), with repeats in the input
+    import sys
+    child = os.path.join(pvlib.VERIF, "harness", "children", "child.py")
+    decoy = os.path.join(pvlib.VERIF, "harness", "children", "with_decoy.py")
+    lines = [b"k%d" % (i % 40) for i in range(300)]
+    data = b"".join(l + b"\n" for l in lines)
+    for launcher in ([], [sys.executable, decoy]):
+        for code in (0, 3, 42):
+            argv = launcher + [ctx.bin("cache"), sys.executable, child, "afterall", "exit", str(code)]
+            st, out, err = pvlib.run_tool(argv, data, env=pvlib.san_env(), timeout=30)
+            ctx.count("cache-exit-status", 1, [(bool(launcher), code)])
+            if st != code or out != data:
+                pvlib.report_violation(ctx, f"cache-status:{'decoy' if launcher else 'plain'}:{code}", {
+                    "argv": (["python3", "harness/children/with_decoy.py"] if launcher else []) + ["cache", "python3", "harness/children/child.py", "afterall", "exit", str(code)],
+                    "stdin_hex": hx(data), "status": st, "stderr": err.decode(errors="replace")[-300:]},
+                    summary=f"cache{' started with an unrelated terminated child' if launcher else ''}: the captive child answered every line and exited {code}; "
+                            f"cache exited {st}, output {'equal' if out == data else 'differs'}")
+                return
+
 
 def replay(ctx, rp):
     argv = rp["argv"]
